@@ -173,16 +173,16 @@ crate::harnesses! { REG;
     #[unwind(12)]
     fn c09_field_unique_more() { field_unique::<DF257, EmptyFlags, 2>(); field_unique::<DF257, SWFlags, 2>(); field_unique::<DF65537, EmptyFlags, 3>(); field_unique::<DF65537, TEFlags, 3>() }
 
-    /// quick required unwindset=sw_double_and_add:5,>::pow:6,SqrtPrecomputation:6 | SW cofactor 4 over F_13: ALL points of the prime-order subgroup (identity included) x 4 modes, affine and projective (ALL rescalings): round trip, bytes written == serialized_size == advertised size
+    /// quick required unwindset=sw_double_and_add:5,>::pow:6,SqrtPrecomputation:7 | SW cofactor 4 over F_13: ALL points of the prime-order subgroup (identity included) x 4 modes, affine and projective (ALL rescalings): round trip, bytes written == serialized_size == advertised size
     #[unwind(70)]
     fn c09_sw_points_cof4() { sw_point_roundtrip::<SwCof4, 3>(true) }
-    /// quick required unwindset=sw_double_and_add:5,>::pow:6,SqrtPrecomputation:6 | SW a=0 (cofactor 1, order 19): ALL points x 4 modes, affine and projective
+    /// quick required unwindset=sw_double_and_add:5,>::pow:6,SqrtPrecomputation:7 | SW a=0 (cofactor 1, order 19): ALL points x 4 modes, affine and projective
     #[unwind(70)]
     fn c09_sw_points_a0() { sw_point_roundtrip::<SwA0, 3>(false) }
-    /// quick required unwindset=TECurveConfig>::mul_:5,>::pow:6,SqrtPrecomputation:6 | TE complete cofactor 4 over F_13: ALL subgroup points x 4 modes, affine and projective; x = 0 sign edge case included
+    /// quick required unwindset=TECurveConfig>::mul_:5,>::pow:6,SqrtPrecomputation:7 | TE complete cofactor 4 over F_13: ALL subgroup points x 4 modes, affine and projective; x = 0 sign edge case included
     #[unwind(70)]
     fn c09_te_points_complete() { te_point_roundtrip::<TeC, 3>(true) }
-    /// thorough required unwindset=sw_double_and_add:5,>::pow:6,SqrtPrecomputation:6,TECurveConfig>::mul_:5,>::pow:6,SqrtPrecomputation:6 | SW a != 0 (order 17) and TE cofactor 8 over F_17: ALL (subgroup) points x 4 modes
+    /// thorough required unwindset=sw_double_and_add:5,>::pow:6,SqrtPrecomputation:7,TECurveConfig>::mul_:5,>::pow:6,SqrtPrecomputation:7 | SW a != 0 (order 17) and TE cofactor 8 over F_17: ALL (subgroup) points x 4 modes
     #[unwind(70)]
     fn c09_points_more() { sw_point_roundtrip::<SwA, 3>(false); te_point_roundtrip::<TeC8, 3>(true) }
 }
